@@ -216,6 +216,21 @@ for _f, _c in (("add_layer", "pushes the layer, context = that layer's index, no
 V("v_tag_set_user_data", "userdata", "Tag::set_user_data stores the record", ["tags::Tag::set_user_data"], fn="set_user_data")
 UD_V = ["v_cel_mut", "v_tag_set_user_data"] + ["v_ud_" + f for f in ("add_layer", "add_slice", "add_tags", "add_cel", "set_tag_user_data", "add_user_data")]
 
+ROUTES = [("v_celsdata_cel", "CelsData::cel", "CelsData::cel(frame, layer) returns exactly the stored cel (None when the layer index is beyond the row or the slot is empty)", ["cel::CelsData::cel"]),
+          ("v_file_cel", "AsepriteFile::cel", "AsepriteFile::cel(frame, layer) denotes cel (frame, layer) of this file - argument order pinned - and its in-range assertion cannot fire for in-range arguments", ["file::AsepriteFile::cel"]),
+          ("v_file_frame", "AsepriteFile::frame", "AsepriteFile::frame(i) is frame i of this file", ["file::AsepriteFile::frame"]),
+          ("v_file_layer", "AsepriteFile::layer", "AsepriteFile::layer(i) is layer i of this file", ["file::AsepriteFile::layer"]),
+          ("v_frame_layer", "Frame::layer", "Frame::layer(l) denotes cel (this frame, l)", ["file::Frame::layer"]),
+          ("v_layer_frame", "Layer::frame", "Layer::frame(f) denotes cel (f, this layer)", ["layer::Layer::frame"]),
+          ("v_cel_frame", "Cel::frame", "Cel::frame reports the frame coordinate", ["cel::Cel::frame"]),
+          ("v_cel_layer", "Cel::layer", "Cel::layer reports the layer coordinate", ["cel::Cel::layer"]),
+          ("v_cel_is_empty", "is_empty", "Cel::is_empty <=> no cel is stored at (frame, layer)", ["cel::Cel::is_empty"]),
+          ("v_num_frames", "num_frames", "num_frames widens the stored u16", ["file::AsepriteFile::num_frames"]),
+          ("v_num_layers", "num_layers", "num_layers == number of decoded layer chunks", ["file::AsepriteFile::num_layers"])]
+for _id, _fn, _claim, _fns in ROUTES:
+    V(_id, "routes", _claim, _fns, fn=_fn, witness="x_routes")
+ROUTES_V = [r[0] for r in ROUTES]
+
 BLEND_LEAVES = ["k_mul_un8", "k_div_un8", "k_blend8"] + ["k_ch_" + m for m in ["multiply", "screen", "overlay", "darken", "lighten", "color_dodge",
                 "color_burn", "hard_light", "difference", "exclusion", "divide"]] + ["k_ch_soft_light_range", "k_merge", "k_normal_alpha",
                 "k_normal_r", "k_normal_g", "k_normal_b", "k_normal_full", "k_pack_i32", "k_pack_f64"]
@@ -251,7 +266,7 @@ def prop(id, level, obls, explanation, **kw):
     PROPS[id] = d
 
 prop("C01", "proof", ["k_parse_chunk_type", "k_parse_pixel_format", "k_check_chunk_bytes", "k_pixel_format_accessors"] + READER + LAYER_DEC + TAGS_DEC + SLICE_DEC
-     + ["k_palette_chunk_20", "k_palette_chunk_26", "k_palette_chunk_35"] + EXT_DEC + TS_DEC + ["x_decoder_contracts", "x_roundtrip_structure", "x_header_extremes"],
+     + ["k_palette_chunk_20", "k_palette_chunk_26", "k_palette_chunk_35"] + EXT_DEC + TS_DEC + ["v_num_frames", "v_num_layers", "v_file_layer", "v_file_frame", "x_decoder_contracts", "x_roundtrip_structure", "x_header_extremes"],
      "Leaf decoders are under contract (enum decoders proved over their whole domain; chunk decoders field-by-field against the file-format layout on fixed payload sizes with symbolic contents). The composition (header, frame dispatch, accessors) cannot be executed symbolically by Kani nor extracted for Verus and is a bounded stand-in (x_*).")
 prop("C02", "proof", ["v_write_raw_cel", "v_write_tilemap_cel", "v_tile_slice", "v_tilemap_tile", "v_is_visible", "k_mul_un8", "k_cels_table", "x_mode_table", "x_frames_vs_spec", "x_cel_order_irrelevant", "x_blend_public_api"],
      "The raw-cel rasteriser is proved FUNCTIONALLY correct by Verus for unbounded sizes (placement, clipping, row-major index, opacity product, blend call). mul_un8 == round8 and the cel table's storage-order independence are Kani contracts. frame_image / write_cel / is_visible glue and the dispatch table (Kani ICE, no dyn in Verus) are bounded stand-ins.")
@@ -262,7 +277,7 @@ prop("C04", "proof", ["v_compute_parents", "v_from_vec", "k_check_chunk_bytes", 
      "Totality contracts: every Kani decoder harness also discharges the automatic no-panic / no-overflow / in-bounds checks for all contents of its payload size; Verus proves compute_parents and that from_vec establishes its precondition. Whole-load totality (glue, zlib, stack depth, allocation) is fault enumeration in an isolated child process.", level_note_extra="fault enumeration for the composition")
 prop("C05", "proof", ["v_write_raw_cel", "v_write_tilemap_cel", "v_tile_slice", "v_tilemap_tile", "v_tilemap_lookup", "v_tile_offsets", "v_is_visible", "v_pixels_per_tile", "k_validate_indexed", "k_indexed_as_rgba", "k_tileset_head_34", "k_tileset_head_44", "x_usable_after_load"],
      "Assume/guarantee: the renderers are proved panic-free under explicit preconditions R-pre (Verus, unbounded); that validation establishes R-pre for everything that loads is checked by fault enumeration: every loadable corrupted file is driven through every accessor.")
-prop("C06", "proof", PIX + ["k_cel_chunk_15", "k_cel_chunk_17", "k_cel_chunk_18", "k_cel_raw_rgba_28", "k_cel_raw_gray_24", "k_cel_raw_indexed_23", "v_write_raw_cel", "x_frames_vs_spec", "x_roundtrip_structure", "x_neutral_encodings"],
+prop("C06", "proof", ["v_cel_is_empty", "v_cel_frame", "v_cel_layer", "v_celsdata_cel"] + PIX + ["k_cel_chunk_15", "k_cel_chunk_17", "k_cel_chunk_18", "k_cel_raw_rgba_28", "k_cel_raw_gray_24", "k_cel_raw_indexed_23", "v_write_raw_cel", "x_frames_vs_spec", "x_roundtrip_structure", "x_neutral_encodings"],
      "Pixel conversions proved for all values; cel header / raw payload decode on fixed sizes; placement + alpha scaling is the Verus rasteriser contract; zlib storage, linked cels and the transparent-index rule end-to-end are bounded-exec against the composition spec.")
 prop("C07", "exploration", ["k_parse_chunk_type", "k_layer_chunk_24", "k_tileset_head_44", "x_neutral_encodings", "x_cel_order_irrelevant"],
      "Mostly glue and zlib: bounded exploration over seeded models x ~30 encoding choices; contract part: ignorable chunk codes map to the three ignorable kinds (all u16), trailing payload bytes do not change a decoder's result (layer / tileset shapes with slack bytes).")
@@ -286,4 +301,4 @@ prop("C17", "proof", ["k_mul_un8", "k_blend8", "k_merge", "k_normal_alpha", "k_p
      + ["k_ch_" + m for m in ["multiply", "screen", "overlay", "darken", "lighten", "color_dodge", "color_burn", "hard_light", "difference", "exclusion", "divide"]] + ["k_mode_addition", "k_mode_subtract", "x_hsl_kernels", "x_blend_public_api"],
      "The three laws are proved for all 19 modes (HSL included: alpha never flows through f64) from the contracts of normal / merge with every other callee uninterpreted. Range clause: integer modes via the leaf contracts (reference value in 0..=255 and equal to the truncated result) and normal's full-domain safety; soft light range proved; HSL packed range only bounded-exec.")
 prop("C18", "exploration", ["x_utils"], "util.rs uses iterator chains and IntMap; bounded-exec on all sizes 1..8 x 1..8 plus seeded sizes and palettes.")
-prop("C19", "exploration", ["x_routes", "x_frames_vs_spec"], "The three constructors need a loaded sprite (Kani cannot build one, Verus cannot extract the borrow structure): bounded-exec on seeded sprites with frames != layers.")
+prop("C19", "proof", ROUTES_V + ["x_routes", "x_frames_vs_spec"], "The three routes (AsepriteFile::cel, Frame::layer, Layer::frame) and the cel accessors frame / layer / is_empty are Verus contracts on the real text: all three construct the cel id (frame, layer) of the same file, so coordinates and emptiness agree by construction (swapped arguments fail the postcondition). Offset, user data and images go through the cel table and the renderer: compared on seeded sprites with frames != layers; single-visible-layer frame == cel image and tilemap image == cel image are bounded-exec.")
